@@ -57,6 +57,40 @@ def run():
         o = oblig.check_paths(eng, paths, "was_modified == some member's mtime is unreadable or later than the limit", prop, oblig.fnames(eng),
                               bounds="2 files, loop unrolled", key="was_modified:semantics")
         rep.add(o)
+        # what is compared: both operands are instants - the file's mtime and the limit, each converted by an offset-preserving
+        # conversion only (a wall-clock reading re-interpreted in another zone is a different instant)
+        import summaries
+        KEEP = r"Into(<.*>)?>::into$|From(<.*>)?>::from$|::with_timezone$|::to_utc$|::fixed_offset$|[Cc]lone>::clone$|[Dd]eref"
+
+        def root(p, st, v):
+            trail = []
+            for _ in range(8):
+                cn = summaries.canon(eng, st, v).strip().lstrip("&").rstrip("*")
+                prod = [ev for ev in p.events if ev.kind == "call" and ev.ret is not None and ev.args
+                        and summaries.canon(eng, st, ev.ret).strip().lstrip("&").rstrip("*") == cn and not (ev.info and ev.info.get("pure") == "modified")]
+                if not prod:
+                    return cn, trail
+                trail.append(prod[0].callee)
+                if not re.search(KEEP, prod[0].callee):
+                    return "<%s>" % prod[0].callee.split("::")[-1], trail
+                v = prod[0].args[0]
+            return None, trail
+
+        def cprop(p):
+            cmps = [ev for ev in p.events if ev.kind == "call" and ev.info and ev.info.get("pure") == "time_cmp"]
+            if not cmps:
+                return None
+            st = mirsym.State()
+            st.mem, st.pc = p.mem, list(p.pc)
+            ok = True
+            for ev in cmps:
+                l, _ = root(p, st, ev.args[0])
+                r, _ = root(p, st, ev.args[1])
+                ok = ok and bool(l and re.match(r"modified[_(]f\d", l)) and r == "after"
+            return z3.BoolVal(bool(ok))
+        o = oblig.check_paths(eng, paths, "was_modified compares instants: the file's mtime with the limit argument, both through offset-preserving conversions only",
+                              cprop, oblig.fnames(eng), bounds="2 files, loop unrolled", key="was_modified:operands")
+        rep.add(o)
     except Inconclusive as ex:
         o = Obligation("was_modified semantics", "E2 mirsym/z3")
         o.verdict, o.detail = "inconclusive", str(ex)
